@@ -1,4 +1,134 @@
 package main
 
-// checkC14Cells is provided by the E2 engine (cells.go); stub until then.
-var checkC14Cells = func(c *Check) {}
+import (
+	"go/token"
+	"strings"
+)
+
+// cell-wise clauses of C14, on the tables of engine E2
+var checkC14Cells = func(c *Check) {
+	L := c.L
+	lines, t, ctx, _ := computeAllCheckerLines(L, c.Tier)
+	// R14.5 the two positions agree
+	r5 := c.Rule("R14.5", "initialisation and assignment accept the same (target, value) pairs", 100)
+	okn := 0
+	for _, a := range t.Classes {
+		for _, b := range t.Classes {
+			c1, c2 := ctx[cellKey("VARDECL (declared, initialiser)", a, b)], ctx[cellKey("ASSIGN (target, value)", a, b)]
+			if c1 == nil || c2 == nil {
+				continue
+			}
+			a1, d1 := c1.Admitted()
+			a2, d2 := c2.Admitted()
+			if !d1 || !d2 {
+				r5.Und("VARDECL/ASSIGN "+cellKey("", a, b), token.NoPos, "cell not decided")
+				continue
+			}
+			if a1 != a2 {
+				which := "initialisation accepts what assignment rejects"
+				if a2 {
+					which = "assignment accepts what initialisation rejects"
+				}
+				r5.Bad("VARDECL vs ASSIGN"+cellKey("", a, b), token.NoPos, "target "+a.String()+", value "+b.String()+": "+which)
+			} else {
+				okn++
+			}
+		}
+	}
+	if okn > 0 {
+		in := r5.add(OK, "agreeing pairs", token.NoPos, "same verdict in both positions")
+		in.N = okn
+	}
+	// R14.6 accept exactly: conversions and value contexts equal the reference in both directions
+	r6 := c.Rule("R14.6", "casts and value contexts accept exactly the reference combinations (both directions)", 500)
+	compareWithGolden(c, r6, lines, func(k string) bool {
+		for _, p := range []string{"CAST", "VARDECL", "ASSIGN", "ARGUMENT", "RETURN", "LIST literal elements", "FOREACH", "BIN_EQUAL", "BIN_UNEQUAL", "TER_FALLS"} {
+			if strings.HasPrefix(k, p) {
+				return true
+			}
+		}
+		return false
+	}, map[string]bool{"admit": true, "reject": true})
+	// R14.7 alias transparency as a law on the tables: replacing an alias coordinate by its target never changes a verdict
+	r7 := c.Rule("R14.7", "alias transparency: a cell with a type-alias coordinate has the verdict of the cell with the alias replaced by its target", 200)
+	verdict := map[string]string{}
+	for _, l := range lines {
+		p := strings.Split(l, "\t")
+		verdict[p[0]] = p[1]
+	}
+	aliases := map[string]string{}
+	for _, d := range t.Classes {
+		if d.Kind == "ALIAS" {
+			aliases[d.String()] = d.Base.String()
+		}
+	}
+	okn = 0
+	for k, v := range verdict {
+		repl := k
+		for a, b := range aliases {
+			repl = strings.ReplaceAll(repl, a, b)
+		}
+		if repl == k {
+			continue
+		}
+		w, ok := verdict[repl]
+		if !ok {
+			continue
+		}
+		if v != w {
+			op := k
+			if i := strings.Index(op, " ("); i > 0 {
+				op = op[:i]
+			}
+			r7.Bad("alias "+op, token.NoPos, "'"+k+"' is "+v+" but '"+repl+"' is "+w+": the alias is not identified with its target here")
+		} else {
+			okn++
+		}
+	}
+	if okn > 0 {
+		in := r7.add(OK, "cells with an alias coordinate", token.NoPos, "verdict equals the target's")
+		in.N = okn
+	}
+	// R14.8 definitions are opaque: no implicit context accepts a definition for its base or vice versa, nor two definitions of one base
+	r8 := c.Rule("R14.8", "a type definition is never accepted for its base type, its base for it, or another definition of the same base, in any implicit position", 20)
+	okn = 0
+	for _, a := range t.Classes {
+		for _, b := range t.Classes {
+			related := false
+			if a.Kind == "TYPEDEF" && (dtEqual(a.Base, b) || (b.Kind == "TYPEDEF" && dtEqual(a.Base, b.Base) && a.Name != b.Name)) {
+				related = true
+			}
+			if b.Kind == "TYPEDEF" && dtEqual(b.Base, a) {
+				related = true
+			}
+			if !related {
+				continue
+			}
+			for _, ctxName := range []string{"VARDECL (declared, initialiser)", "ASSIGN (target, value)", "ARGUMENT (parameter, argument)", "RETURN (declared, value)", "LIST literal elements", "BIN_EQUAL"} {
+				k := cellKey(ctxName, a, b)
+				v, ok := verdict[k]
+				if !ok {
+					continue
+				}
+				if v == "admit" {
+					r8.Bad("opaque "+ctxName, token.NoPos, k+" is admitted: a type definition converts implicitly")
+				} else {
+					okn++
+				}
+			}
+			// explicit casts between two different definitions of one base are not allowed either
+			if a.Kind == "TYPEDEF" && b.Kind == "TYPEDEF" && a.Name != b.Name {
+				k := cellKey("CAST to "+a.String(), b)
+				if verdict[k] == "admit" {
+					r8.Bad("cast between definitions", token.NoPos, k+" is admitted: a type definition converts to another definition, not only to and from its own base")
+				} else if verdict[k] != "" {
+					okn++
+				}
+			}
+		}
+	}
+	if okn > 0 {
+		in := r8.add(OK, "definition/base pairs", token.NoPos, "rejected in every implicit position")
+		in.N = okn
+	}
+}
